@@ -11,7 +11,7 @@ C09-TAB     filter tables: LZ-based filters have memusage functions, the rest ar
 C09-XZ      xz: coder_set_compression_settings returns only with usage <= limit, or through the
             documented soft-limit escape, or calls memlimit_too_small() (noreturn).
 """
-from sa import ex, cfg, fd, guard
+from sa import ex, cfg, fd, guard, resume
 from sa.compdb import AnalysisBroken
 from . import common
 from .oblig import MP, Present, evaluate, graph_for, PlainGraph
@@ -942,6 +942,153 @@ def check_free_first(ck, prog):
     return n
 
 
+def check_pending(ck, prog):
+    """stream_decode_mt() compares what the next Block needs with memlimit_stop once, at the top of SEQ_BLOCK_INIT, and may
+    then return to the application (output full, timeout) in a later state before the memory is allocated.
+    lzma_memlimit_set() can be called in between.  For every state from which a Block decoder is initialised without
+    passing that comparison again, memconfig has to count the pending need, i.e. refuse a limit below it; otherwise the
+    hard limit is exceeded (direct mode) or memlimit_threading drops below what the accepted Block needs and the Block
+    can never start (threaded mode)."""
+    ck.rule("C09-PENDING", "every state of the threaded decoder that initialises a Block decoder without re-testing "
+            "memlimit_stop is covered by memconfig's minimum for lzma_memlimit_set()")
+    f = prog.fn("stream_decode_mt", "stream_decoder_mt.c")
+    mc = prog.fn("stream_decoder_mt_memconfig", "stream_decoder_mt.c")
+    ck.saw_function(f)
+    ck.saw_function(mc)
+    sw = resume.Resume(prog, f).find_switch()
+    if not sw:
+        raise AnalysisBroken("stream_decode_mt: no state switch")
+    swb = sw[0]
+    guards = {b.id for b in f.blocks.values() if b.term and "cond" in b.term and
+              "memlimit_stop" in ex.show(b.term["cond"]) and "mem_next_filters" in ex.show(b.term["cond"])}
+    if not guards:
+        raise AnalysisBroken("stream_decode_mt: the comparison of mem_next_filters with memlimit_stop was not found")
+    allocs = {b.id for b, i, e in f.iter_elems() for c in ex.calls(e, into_refs=False)
+              if c.get("fn") in ("lzma_block_decoder_init", "get_thread")}
+    if len(allocs) < 2:
+        raise AnalysisBroken("stream_decode_mt: Block decoder initialisation sites not found")
+    pend = {}
+    for lb, bid in cfg.case_targets(f, swb):
+        if not lb or not lb.get("n"):
+            continue
+        seen, st, hit = set(), [bid], None
+        while st:
+            x = st.pop()
+            if x in seen or x is None or x == swb.id or x in guards:
+                continue
+            seen.add(x)
+            if x in allocs:
+                hit = x
+                break
+            st.extend(f.blocks[x].succs)
+        if hit is not None:
+            pend[lb["n"]] = hit
+    if not pend:
+        raise AnalysisBroken("stream_decode_mt: no state reaches a Block decoder initialisation without the limit test")
+    # states that memconfig singles out and for which it raises *memusage
+    covered = set()
+    en = common.state_enum_of_switch(prog, f, swb)
+    for b in mc.blocks.values():
+        names = set()
+        if b.term and "cond" in b.term:
+            for x in ex.walk(b.term["cond"]):
+                if x.get("k") == "enum" and x.get("n") in en:
+                    names.add(x["n"])
+        if b.label and b.label.get("n") in en:
+            names.add(b.label["n"])
+        if not names:
+            continue
+        reach = cfg.reachable(mc, [y for y in b.succs if y is not None]) | {b.id}
+        raises = any(bb.id in reach and ex.show(ex.strip(l)).replace(" ", "") == "*memusage"
+                     for bb, ii, ee in mc.iter_elems() for (l, r, op, node) in ex.writes(ee))
+        if raises:
+            covered |= names
+    for st_, blk in sorted(pend.items()):
+        ok = st_ in covered
+        ck.ob("C09-PENDING", "stream_decode_mt:" + st_, ok, common.where(f, f.blocks[blk].elems[0] if f.blocks[blk].elems else None),
+              "%s: a Block decoder is initialised (line %s) without re-testing memlimit_stop; memconfig counts the pending "
+              "Block in this state" % (st_, cfg.block_lines(f, blk)[0] if cfg.block_lines(f, blk) else "?") if ok else
+              "stream_decode_mt(): in state %s a Block decoder is initialised (block %d) without comparing the need with "
+              "memlimit_stop again, and stream_decoder_mt_memconfig() does not count the pending Block in that state: "
+              "lzma_memlimit_set() accepts a limit below what the already accepted Block needs -- the hard limit is then "
+              "exceeded (direct mode) or memlimit_threading falls below mem_next_block and the Block can never start" % (st_, blk),
+              key="PENDING:stream_decode_mt:" + st_)
+    ck.floor("C09-PENDING", 2)
+
+
+def check_kept(ck, prog):
+    """SEQ_BLOCK_THR_INIT snapshots the head of coder->threads_free under the mutex and, when cached Block decoders have
+    to be freed to stay within memlimit_threading, exempts that first worker ("get_thread() will pick it and reuse its
+    allocation").  get_thread() reads the list head again later: a worker that finished in between is picked instead,
+    a new decoder is allocated for it and the exempted one stays cached -- both limits are exceeded.  The exemption is
+    sound only if the exempted worker is compared with the worker actually obtained (and released when they differ)."""
+    ck.rule("C09-KEPT", "a cached worker exempted from freeing in SEQ_BLOCK_THR_INIT is compared with the worker that "
+            "get_thread() returned")
+    f = prog.fn("stream_decode_mt", "stream_decoder_mt.c")
+    ck.saw_function(f)
+    snaps = set()
+    for b, i, e in f.iter_elems():
+        for (l, r, op, node) in ex.writes(e):
+            ls = ex.strip(l)
+            if ls is not None and ls.get("k") == "var" and r is not None and ex.show(ex.strip(r)).endswith("->threads_free"):
+                snaps.add(ls["n"])
+    if not snaps:
+        raise AnalysisBroken("stream_decode_mt: snapshot of coder->threads_free not found")
+    gt = [b.id for b, i, e in f.iter_elems() if any(c.get("fn") == "get_thread" for c in ex.calls(e, into_refs=False))]
+    if not gt:
+        raise AnalysisBroken("stream_decode_mt: get_thread() call not found")
+    after = set()
+    for x in gt:
+        after |= cfg.reachable(f, [y for y in f.blocks[x].succs if y is not None])
+    ex_sites = []
+    for b in f.blocks.values():
+        t = b.term
+        if not t or "cond" not in t or len(b.succs) != 2:
+            continue
+        c = ex.show(ex.strip(t["cond"]))
+        if "mem_filters" in c and "mem_next_filters" in c and any(("%s->" % v) in c for v in snaps):
+            tb = f.blocks.get(b.succs[0])
+            if tb is None:
+                continue
+            adv = [e for e in tb.elems if e is not None for (l, r, op, node) in ex.writes(e)
+                   if ex.strip(l) is not None and ex.strip(l).get("k") == "var" and ex.strip(l)["n"] in snaps
+                   and r is not None and ex.show(ex.strip(r)).endswith("->next")]
+            frees = any(cc.get("fn") == "lzma_next_end" for e in tb.elems if e is not None for cc in ex.calls(e, into_refs=False))
+            if adv and not frees:
+                ex_sites.append((b, tb))
+    if not ex_sites:
+        ck.ob("C09-KEPT", "stream_decode_mt", True, common.where(f),
+              "stream_decode_mt: no cached worker is exempted from freeing", key="KEPT:stream_decode_mt")
+        return
+    for (b, tb) in ex_sites:
+        # the exempted pointer survives in a local ...
+        kept = set()
+        for e in tb.elems:
+            if e is None:
+                continue
+            for (l, r, op, node) in ex.writes(e):
+                ls, rr = ex.strip(l), ex.strip(r) if r is not None else None
+                if ls is not None and ls.get("k") == "var" and rr is not None and rr.get("k") == "var" and rr["n"] in snaps \
+                        and ls["n"] not in snaps:
+                    kept.add(ls["n"])
+        # ... and is compared with coder->thr after get_thread()
+        cmp_ = False
+        for bb in f.blocks.values():
+            if bb.id in after and bb.term and "cond" in bb.term:
+                c = ex.strip(bb.term["cond"])
+                txt = ex.show(c)
+                if any(x.get("k") == "var" and x["n"] in kept for x in ex.walk(c)) and "->thr" in txt:
+                    cmp_ = True
+        ck.ob("C09-KEPT", "stream_decode_mt", cmp_, common.where(f, b.term["cond"]),
+              "stream_decode_mt: the exempted worker (%s) is compared with coder->thr after get_thread()" % sorted(kept) if cmp_ else
+              "stream_decode_mt(): the first cached worker of the snapshot is exempted from freeing (`%s`) on the assumption "
+              "that get_thread() will reuse it, but the exempted worker is %s: get_thread() takes the CURRENT head of "
+              "coder->threads_free, a worker that finished after the snapshot is picked instead, its decoder is allocated anew and "
+              "the exempted decoder stays cached, so memlimit_threading and memlimit_stop are exceeded" % (
+                  ex.show(ex.strip(b.term["cond"])), "not remembered" if not kept else "never compared with coder->thr"),
+              key="KEPT:stream_decode_mt")
+
+
 def check_optpath(ck, prog):
     """An encoder's memory usage function recomputes the lzma_lz_options that the init path hands to
     lz_encoder_prepare(): every adjustment of that record on the init path must also be made on the memusage path,
@@ -1107,6 +1254,8 @@ def run(ck):
     check_reserve_and_default(ck, prog, prog_xz)
     check_optpath(ck, prog)
     check_free_first(ck, prog)
+    check_pending(ck, prog)
+    check_kept(ck, prog)
     check_clamp(ck, prog)
     check_saturate(ck, prog)
     check_usage_not_remaining(ck, prog)
